@@ -28,7 +28,7 @@ def make_accel_case(spec, rnd):
                        density=rnd.choice([0.7, 0.9, 1.0]))
 
 
-VARIANTS = ["generic", "generic", "merger-static", "eager2", "part", "reread-m", "lf-shared",
+VARIANTS = ["generic", "occ-conv", "merger-static", "eager2", "part", "reread-m", "lf-shared",
             "generic", "merger-dynamic", "alias-arch", "part", "lf-affine"]
 
 
